@@ -41,3 +41,48 @@ def round_ref(v: Fraction, mode: str) -> int:
     if mode == "ROUND_HALF_EVEN":
         return fl if fl % 2 == 0 else ce
     raise ValueError(mode)
+
+
+# ---- exchange rates (independent reference of the documented normal form) ----
+
+def ilog10(x: Fraction) -> int:
+    """exact floor(log10(x)) for x > 0"""
+    assert x > 0
+    k = 0
+    if x >= 1:
+        n = x.numerator // x.denominator
+        while n >= 10:
+            n //= 10
+            k += 1
+        return k
+    while x < 1:
+        x *= 10
+        k -= 1
+    return k
+
+
+class RateRejected(Exception):
+    pass
+
+
+def ref_rate(um: Fraction, ta: Fraction, mode: str):
+    """(unit multiple, term amount) as documented: the unit multiple is
+    adjusted to a power of ten so that the term amount's magnitude is >= -1,
+    the term amount is rounded to 6 decimals."""
+    if um.denominator != 1 or um < 1:
+        raise RateRejected("unit multiple")
+    if ta <= 0 or ta < Fraction(1, 10 ** 6):
+        raise RateRejected("term amount")
+    e = ilog10(um) - min(0, ilog10(ta) + 1)
+    mult = Fraction(10) ** e
+    t = Fraction(round_ref(ta * mult / um * 10 ** 6, mode), 10 ** 6)
+    return mult, t
+
+
+def is_pow10(x: Fraction) -> bool:
+    if x.denominator != 1 or x < 1:
+        return False
+    n = x.numerator
+    while n % 10 == 0:
+        n //= 10
+    return n == 1
